@@ -34,12 +34,18 @@ def gen_plan(rng, tier, run):
     ext = rng.choice([None, None, [".pel"], [".pel", ".txt", ""], [".pel", ".PEL", ".pel.bak"]])
     files = common.gen_store(rng, n, ext=ext, max_sections=4)
     plan = {"files": files,
+            # process model: every invocation in a fresh module set (= its own process) or all in one process
+            "fresh": rng.random() < 0.5,
             "opts": list(rng.choice(common.SELECTION_SETS)),
             "rev": rng.random() < 0.4,
             "ext": rng.choice([".pel", ".txt", ".PEL", ".bak"]) if ext and rng.random() < 0.7 else None,
             "hex": rng.random() < 0.25,
             "skip_plugins": rng.random() < 0.2,
             "registry": common.gen_registry(rng, [f["recipe"] for f in files]) if rng.random() < 0.5 else None,
+            # invocations executed earlier in the same module set (a library user / test harness calling main() repeatedly):
+            # read-only, with other option sets; they must not influence the three modes compared below
+            "prelude": [{"mode": rng.choice(["-l", "-n", "-a"]), "opts": list(rng.choice(common.SELECTION_SETS)),
+                         "flags": [x for x in ("-r", "-x") if rng.random() < 0.3], "pos": rng.randrange(3)} for _ in range(rng.choice([0, 0, 1, 2]))],
             "orders": {k: {"policy": rng.choice(["perm", "perm", "perm", "asc", "desc"]), "key": rng.randrange(1 << 30)}
                        for k in ("n", "l", "a", "lx", "ax")}}
     return plan
@@ -65,13 +71,24 @@ def execute(plan):
     events = 0
     h = hashlib.sha256()
     with World(registry=plan["registry"]) as w:
+        w.fresh_per_run = bool(plan.get("fresh"))
+        bump("process_model:fresh" if w.fresh_per_run else "process_model:shared")
         w.mkdir("D")
         for f in files:
             w.put("D/" + f["name"], datas[f["name"]])
         before = w.snapshot()
+        def prelude(pos):
+            # other invocations of the same process, before / between the compared ones
+            for i, pre in enumerate(plan.get("prelude", [])):
+                if pre.get("pos", i % 3) == pos:
+                    w.run(["-p", "@/D", pre["mode"]] + pre["opts"] + pre["flags"])
+                    bump("prelude")
         res = {}
+        prelude(0)
         res["n"] = w.run(base + ["-n"] + rev, order=plan["orders"]["n"])
+        prelude(1)
         res["l"] = w.run(base + ["-l"] + rev, order=plan["orders"]["l"])
+        prelude(2)
         res["a"] = w.run(base + ["-a"] + rev, order=plan["orders"]["a"])
         if plan["hex"]:
             res["lx"] = w.run(base + ["-l", "-x"] + rev, order=plan["orders"]["lx"])
@@ -225,6 +242,10 @@ def shrink_candidates(plan, violation):
             c = P()
             del c["files"][i]["recipe"]["sections"][j]
             yield c
+    for i in range(len(plan.get("prelude", []))):
+        c = P()
+        del c["prelude"][i]
+        yield c
     for k in ("rev", "hex", "skip_plugins"):
         if plan[k]:
             c = P()
